@@ -15,7 +15,8 @@ from vf import qh
 INFO = {
     'explanation': 'Fault positions (write index k, read index k, refusal index m) and table cells / file texts are symbolic; each obligation covers EVERY fault position and every '
                    'table / text of the stated shape for one query shape (streaming, sorted, aggregated, distinct-count, unnest, update, with header).',
-    'bounds': 'tables <= 3 rows of ints; k, m any non-negative integer; CSV texts of 2 lines x <= 2 characters; chunk sizes 1 and 1024',
+    'bounds': 'tables <= 3 rows of ints; k, m any non-negative integer; CSV texts of 2 lines x <= 2 characters; chunk sizes 1 and 1024'
+        '; writer protocol also for the empty table and for queries selecting nothing; file-descriptor clause also with a missing input path',
     'outside': 'the real UTF-8 decoder at byte positions (io.TextIOWrapper, C); real pipes and file descriptors (/proc/self/fd); sys.stdout closing in CSVWriter.finish',
     'assumptions': ['open / os.path / encode_*_stream of rbql_csv replaced by an in-memory tracking file table (file-system semantics trusted)',
                     'BrokenPipeError / UnicodeDecodeError are injected by stubs at call granularity'],
